@@ -44,6 +44,8 @@ def ref(fn, v, extra=()):
             return SKIPPED
         i, j = extra
         b = v.encode('utf-8')
+        if i < 0 or j < 0:
+            return SKIPPED          # an offset before the start of the string selects nothing
         if not v or not (i < j) or i > len(b) or j > len(b):
             return SKIPPED
         try:
@@ -132,7 +134,7 @@ def single_value_cases(ctx, thorough):
         for v in vals:
             extras = [()]
             if fn == 'substring':
-                extras = [(0, 1), (1, 3), (0, 0), (2, 1), (0, 40), (1, 2)]
+                extras = [(0, 1), (1, 3), (0, 0), (2, 1), (0, 40), (1, 2), (-2, 3), (-1, 2), (0, -1)]
             if fn == 'regex_replace':
                 extras = [('-', '_'), ('^(\\w+) (\\w+)$', '${2} ${1}'), ('[0-9]+', '#'), ('^arn:(\\w+):(\\w+):.*$', '${2}/${1}'), ('z', 'Q')]
             for ex in extras:
@@ -142,7 +144,7 @@ def single_value_cases(ctx, thorough):
                 cases.append((fn, v, ex, exp))
     if not thorough:
         # every function on every non-string value and on the numeric-looking strings always; a seeded sample of the rest
-        core = [c for c in cases if not isinstance(c[1], str) or re.fullmatch(r'[+-]?[0-9.]+', c[1])]
+        core = [c for c in cases if not isinstance(c[1], str) or re.fullmatch(r'[+-]?[0-9.]+', c[1]) or (c[0] == 'substring' and min(c[2]) < 0)]
         rest = [c for c in cases if c not in core]
         rng.shuffle(rest)
         cases = core + rest[:max(0, 600 - len(core))]
